@@ -167,31 +167,35 @@ def normalizeNewlines : Dialect → List UInt8 → List UInt8
   | .luau => normalizeLuau
   | .lua51 => normalizeLua51
 
-/-- `[[` inside a level-0 long string: stock Lua 5.1 (`LUA_COMPAT_LSTR = 1`) raises
-"nesting of [[...]] is deprecated". -/
+/-- `[[` inside a level-0 long string. `llex.c` (5.1.0–5.1.5) `read_long_string`, `case '['`:
+`if (skip_sep(ls) == sep) { … #if LUA_COMPAT_LSTR == 1  if (sep == 0) luaX_lexerror(ls, "nesting
+of [[...]] is deprecated", '['); }` — active in the stock build (`luaconf.h` defines
+`LUA_COMPAT_LSTR` as 1; manual §7.1). By the grammar of manual §2.1 alone such a literal is a
+valid string; the decoders take the build option as the parameter `compatLstr`. -/
 def hasNestedOpen : List UInt8 → Bool
   | 91 :: 91 :: _ => true
   | _ :: r => hasNestedOpen r
   | [] => false
 
 /-- a long-bracket literal; input starts after the first `[` -/
-def decodeLong (d : Dialect) (afterBracket : List UInt8) : Option (List UInt8 × List UInt8) :=
+def decodeLong (d : Dialect) (compatLstr : Bool) (afterBracket : List UInt8) :
+    Option (List UInt8 × List UInt8) :=
   let level := (afterBracket.takeWhile (· == 61)).length
   match afterBracket.drop level with
   | 91 :: body =>
     match scanLong level (skipFirstNewline d body) with
     | none => none
     | some (raw, rest) =>
-      if d == .lua51 && level == 0 && hasNestedOpen raw then none
+      if compatLstr && d == .lua51 && level == 0 && hasNestedOpen raw then none
       else some (normalizeNewlines d raw, rest)
   | _ => none
 
 /-- The text of exactly one string literal ↦ its bytes. `none` if the text is not exactly one
 well-formed string token of the dialect. -/
-def decodeLiteral (d : Dialect) (text : List UInt8) : Option (List UInt8) :=
+def decodeLiteral (d : Dialect) (compatLstr : Bool) (text : List UInt8) : Option (List UInt8) :=
   match text with
   | 91 :: r =>
-    match decodeLong d r with
+    match decodeLong d compatLstr r with
     | some (out, []) => some out
     | _ => none
   | q :: r =>
@@ -202,8 +206,11 @@ def decodeLiteral (d : Dialect) (text : List UInt8) : Option (List UInt8) :=
     else none
   | [] => none
 
-abbrev decodeLuau := decodeLiteral .luau
-abbrev decodeLua51 := decodeLiteral .lua51
+abbrev decodeLuau := decodeLiteral .luau true
+/-- stock Lua 5.1: `LUA_COMPAT_LSTR = 1` -/
+abbrev decodeLua51 := decodeLiteral .lua51 true
+/-- Lua 5.1 by the manual's grammar alone (`LUA_COMPAT_LSTR` undefined) -/
+abbrev decodeLua51Manual := decodeLiteral .lua51 false
 
 /-- One section of a Luau interpolated string: input is the text after `` ` `` or `}`; the
 section ends at the first unescaped `` ` `` or `{`. Returns the denoted bytes and the rest
@@ -252,30 +259,36 @@ inductive NumDesc where
 def digitsValue (base : Nat) (ds : List UInt8) : Nat :=
   ds.foldl (fun acc c => acc * base + (hexVal? c).getD 0) 0
 
+/-- the mantissa scan of `strtod`: integer digits, then optionally `.` and fraction digits;
+returns `(integer digits, fraction digits, unread rest)` -/
+def scanMantissa (s : List UInt8) : List UInt8 × List UInt8 × List UInt8 :=
+  let ip := s.takeWhile isDigit
+  match s.drop ip.length with
+  | [] => (ip, [], [])
+  | c :: r' =>
+    if c == 46 then (ip, r'.takeWhile isDigit, r'.drop (r'.takeWhile isDigit).length)
+    else (ip, [], c :: r')
+
+/-- what follows `e`/`E`: `[+-] digits+` up to the end of the text -/
+def scanExponent (r : List UInt8) : Option Int :=
+  match r with
+  | 43 :: ed => if ed.isEmpty || !ed.all isDigit then none else some (digitsValue 10 ed : Nat)
+  | 45 :: ed => if ed.isEmpty || !ed.all isDigit then none else some (-((digitsValue 10 ed : Nat) : Int))
+  | ed => if ed.isEmpty || !ed.all isDigit then none else some (digitsValue 10 ed : Nat)
+
 /-- C `strtod` restricted to what can follow in a number token (no sign, no blanks, not hex):
 `digits* [. digits*] [(e|E) [+-] digits+]` with at least one mantissa digit, all consumed. -/
 def strtodDecimal (s : List UInt8) : Option NumDesc :=
-  let ip := s.takeWhile isDigit
-  let r := s.drop ip.length
-  let (fp, r) : List UInt8 × List UInt8 := match r with
-    | 46 :: r' => (r'.takeWhile isDigit, r'.drop (r'.takeWhile isDigit).length)
-    | _ => ([], r)
-  if ip.isEmpty && fp.isEmpty then none
-  else
-    let mant := digitsValue 10 (ip ++ fp)
-    match r with
-    | [] => some (.dec mant (-(fp.length : Int)))
-    | c :: r' =>
-      if c == 101 || c == 69 then
-        let (neg, ed) : Bool × List UInt8 := match r' with
-          | 43 :: x => (false, x)
-          | 45 :: x => (true, x)
-          | x => (false, x)
-        if ed.isEmpty || !ed.all isDigit then none
-        else
-          let e : Int := digitsValue 10 ed
-          some (.dec mant ((if neg then -e else e) - (fp.length : Int)))
-      else none
+  match scanMantissa s with
+  | (ip, fp, r) =>
+    if ip.isEmpty && fp.isEmpty then none
+    else
+      match r with
+      | [] => some (.dec (digitsValue 10 (ip ++ fp)) (-(fp.length : Int)))
+      | c :: r' =>
+        if c == 101 || c == 69 then
+          (scanExponent r').map fun e => .dec (digitsValue 10 (ip ++ fp)) (e - (fp.length : Int))
+        else none
 
 /-- `strtoull(s, &end, base)` with `*end == 0` required, on digit-only input -/
 def strtoullAll (base : Nat) (s : List UInt8) : Option Nat :=
